@@ -31,4 +31,9 @@ CLAIMS["C04"] = {
     "text": "Decides on every CFG path of one check: first effect is CheckingForUpdates(params.source), last are ScheduleChange, ProtocolStateChange, UpdateCheckResult exactly once and in order; each State (ErrorCheckingForUpdate, NoUpdateAvailable, InstallationDeferredByPolicy, InstallingUpdate, InstallationError) and the OmahaServerResponse event is announced only under and always under the outcome the property names; the per-app result is response.apps mapped 1:1 with the exact action table; in the long-running loop every check is followed by one Idle, WaitingForReboot exactly under Needed.",
     "note": "Values inside events beyond provenance are not decided. Installer contract (one result per offered app, response order) is assumed. Plan-level outcomes give every listed app the same action (source TODO), checked as a uniform-constant rule.",
 }
+CLAIMS["C07"] = {
+    "technique": "symbolic term extraction of the header->interval computation (closures inlined, generic arguments resolved) compared with the stated formula; dominance/must-pass-through on the exchange function's CFG; field-writer and storage-key census",
+    "text": "Decides: the stored value is exactly and_then(headers.get(\"X-Retry-After\"), v -> to_str(v).and_then(parse::<u64>) ? Some(from_secs(min(s,86400))) : None); its evaluation dominates the HTTP status test and lies on every path from a verified response, in the single exchange function shared by all request kinds; the field has no other writer; on change the write is followed by ProtocolStateChange, persist and commit in that order before the exchange returns; the storage key is written as as_micros->i64 and read back as i64->u64->from_micros.",
+    "note": "What str::parse::<u64> accepts (e.g. a leading '+') is core's contract. Durability of commit is the Storage contract.",
+}
 NOT_APPLICABLE = {}
